@@ -4,8 +4,13 @@ The patch is applied to a scratch copy of /repo's package put first on PYTHONPAT
 """
 import json, os, shutil, subprocess, sys
 
-args = [a for a in sys.argv[1:] if not a.startswith("--")]
-seed = next((sys.argv[i + 1] for i, a in enumerate(sys.argv) if a == "--seed"), "1")
+argv = list(sys.argv[1:])
+seed = "1"
+if "--seed" in argv:
+  i = argv.index("--seed")
+  seed = argv[i + 1]
+  del argv[i : i + 2]
+args = [a for a in argv if not a.startswith("--")]
 name = args[0]
 VERIF = os.path.dirname(os.path.dirname(os.path.abspath(__file__)))
 sd = os.path.join(VERIF, "seeded", name)
